@@ -92,6 +92,18 @@ CLAIMS = {
         "technique": "TLA+ structural/distributional predicates; recorded conversion traces validated by TLC",
         "design_ref": "6/C14",
     },
+    "C12": {
+        "text": ("Definitional oracles in spec/PCLib.tla: Markov equivalence class by enumeration of all DAGs, CPDAG = edges compelled in every "
+                 "member, consistent extensions of a PDAG. TLC proves for every DAG on 4 nodes that ANY maximal application order of Meek rules "
+                 "R1-R3 (with their non-adjacency side conditions) to skeleton+v-structures is sound at every step and ends in the CPDAG, and "
+                 "that the CPDAG's extensions are exactly the class. Every one of the 543 ground truths is replayed on PC (orig/stable/parallel; "
+                 "callable d-separation oracle answering from TLC's table, and independence_match on the full pairwise list; 4/8 hash seeds): "
+                 "skeleton, separating sets (must d-separate), CPDAG (directed and undirected edges exactly), DAG (member of the class). "
+                 "PDAG.to_dag is replayed on every extendable partially directed graph on 4 nodes (result must be one of TLC's consistent extensions)."),
+        "note": "Exhaustive on 4 labelled nodes; CI answers are exact d-separation; max_cond_vars = number of nodes; larger graphs not yet sampled.",
+        "technique": "TLA+ definitional oracle + Meek-rule state machine model-checked by TLC; exhaustive generated cases replayed on the code",
+        "design_ref": "6/C12",
+    },
 }
 
 NOT_APPLICABLE = {}
